@@ -4,9 +4,13 @@ _WHY = {"2": "C27.Spec oracle false on the implementation's behaviour: the real 
              "larger than 3 * (input length + c) + 4096 bytes",
         "1": "property oracle true but the model decoder and the real decoder differ (result, remaining input) or the "
              "real decoder's largest allocation exceeds 3 * (largest request of the model) + 4096"}
+_WHY_ARCHIVES = {"2": "C27.ArchiveSpec oracle false on the implementation's behaviour on an archive file: a reader operation "
+                         "of RrdpArchive (open, load_state, load_object, objects, try_open, verify) panicked, the worker "
+                         "process died or hung inside it, objects() does not end, or a single allocation was larger than "
+                         "3 * (file length + 65536 * 41) + 4096 bytes (no model is involved in this stream)"}
 SPEC = {
     "module": "C27.Property",
-    "targets": ["C27/Property.vo"],
+    "targets": ["C27/Property.vo", "C27/ArchiveSpec.vo"],
     "theorems": [
         "C27_total_bounded", "C27_safe_decode", "C27_safe_read_vec", "C27_safe_read_map", "C27_safe_header",
         "C27_safe_manifest", "C27_safe_object", "C27_safe_stored_status", "C27_safe_state", "C27_vec_growth",
@@ -19,6 +23,9 @@ SPEC = {
         {"name": "files", "bin": "c27", "check_module": "C27.Spec", "fn": "check_fcase", "casetype": "fcase",
          "env": {"C27_STREAM": "files"},
          "model_expr": "file_model (f_status CASE) (f_bytes CASE)", "why": _WHY},
+        # oracle only: no model, no theorem (the byte-level reader of utils/archive.rs is not modelled)
+        {"name": "archives", "bin": "c27", "check_module": "C27.ArchiveSpec", "fn": "check_acase", "casetype": "acase",
+         "env": {"C27_STREAM": "archives"}, "why": _WHY_ARCHIVES},
     ],
     "level_text": "Theorems over ALL byte strings (no length bound beyond fitting the address space) for the 22 "
                   "decoders (16 Parse impls of utils/binio.rs with the fix, StoredPointHeader, UpdateStatus, "
@@ -26,8 +33,12 @@ SPEC = {
                   "never a panic, and every capacity request is <= input length + c (c = 65536, plus 65536*40 for the "
                   "map decoder); the same for the whole-file readers Store::status and StoredPoint::open + object "
                   "iteration, whose iteration always ends. The pre-fix decoders are refuted by computed witnesses. "
-                  "PARTIAL with respect to the property text: the object archive file format (utils/archive.rs, "
-                  "RRDP archive files as files) is not covered here.",
+                  "PARTIAL with respect to the property text: RRDP archive files as files (the memory-mapped object "
+                  "archive format of utils/archive.rs) are covered only by an oracle-only stream (`archives`) without a "
+                  "model or theorem: corrupted archive files are run through every reader of RrdpArchive and the "
+                  "outcome is checked against the property's oracle (no panic, no process death or hang, bounded "
+                  "allocation); the byte-level reader of utils/archive.rs is not modelled and nothing is proved "
+                  "about it.",
     "level_note": "Model = C28's model of the fixed code plus the two file readers; tie = every case run through the "
                   "real decoder in a child process under a counting global allocator (panics caught, process death "
                   "observed), result and remaining input compared with the model inside Coq, largest single "
@@ -41,8 +52,21 @@ SPEC = {
             "the 64 KiB chunk; all truncations and 3-5 single-byte corruptions per position plus bit flips of 2 (quick) / 6 "
             "(thorough) valid encodings per kind; random and half-valid byte strings. cases (files): status.bin and "
             "stored-point files: valid, all/sampled truncations, byte corruptions, extreme length prefixes, random. "
+            "cases (archives, oracle only): two valid archive files written by the real RrdpArchive writer (3 buckets: "
+            "chains in every bucket, explored in full; 1024 buckets: header in full, index and blocks sampled; objects "
+            "of 0 to 5000 bytes, a repository state, moved / updated / deleted objects, free blocks); every "
+            "truncation in the header/index region and around every block header plus a sample; 3-4 single-byte "
+            "corruptions (xor 1, xor 0x80, 0xFF, 0x00) at every position of the header/index region and of every "
+            "block header plus a sample of payload positions; every 8-byte field (bucket count, index entries, size, "
+            "next, name_len, data_len) set to 0, 1, 2^31, 2^32, 2^63-1, 2^63, 2^64-2, 2^64-1, values around the file "
+            "length and around what is left behind the field, and lengths that make start+len wrap around; pointers "
+            "redirected (cycle, first block, middle of a block); 0xFF/0x00 blocks of 8/16/64 bytes at every block "
+            "header and over its length fields; header-only and index-only files with extreme bucket counts; random "
+            "bytes (bare, behind the magic, behind the header, behind the index); the empty file. Every case: open, "
+            "load_state, load_object for each original name and an absent one, objects() to its end, try_open, "
+            "verify. "
             "distinct = distinct Coq case term; non-trivial = result other than plain EOF (decoders) / other than "
-            "Failed (files)",
+            "Failed (files) / archive opened (archives)",
     "assumptions": ["64-bit target (usize = u64, isize::MAX = 2^63-1)",
                     "Vec<u8> grows to at most max(2*cap, needed) and hashbrown allocates at most "
                     "next_power_of_two(8/7 * n) buckets of 41 bytes + 16 (both inside the factor 3 of the tie)",
